@@ -23,7 +23,9 @@ func lazyCase(c *fw.Ctx, stream string, malformed bool) {
 	}
 	orig := append([]byte{}, data...)
 	if malformed {
-		switch r.Intn(5) {
+		switch r.Intn(6) {
+		case 5: // a record with field number 0 between two records of the message (top level or inside a length-delimited payload)
+			data = lzSpliceRecord(r, data, lzZeroKeyRecord(r))
 		case 0:
 			if len(data) > 0 {
 				data = data[:r.Intn(len(data))]
@@ -202,21 +204,8 @@ func lazyReuseCase(c *fw.Ctx) {
 	r := c.Rng
 	fs := genLzFields(r, 0)
 	def := genLzDef(r, fs, 0)
-	opt := optCombo{fast: r.Bool(), maxBuf: []int{-1, -1, 0, 1, 2, 64}[r.Intn(6)], filter: r.Intn(3)}
-	mode := csproto.DecoderModeSafe
-	if opt.fast {
-		mode = csproto.DecoderModeFast
-	}
-	opts := []lazyproto.Option{lazyproto.WithMode(mode)}
-	if opt.maxBuf >= 0 {
-		opts = append(opts, lazyproto.WithMaxBufferSize(opt.maxBuf))
-	}
-	switch opt.filter {
-	case 1:
-		opts = append(opts, lazyproto.WithBufferFilterFunc(func(capacity int) int { return 1 }))
-	case 2:
-		opts = append(opts, lazyproto.WithBufferFilterFunc(func(capacity int) int { return capacity / 2 }))
-	}
+	opt := genOptCombo(r)
+	opts := opt.options()
 	dec, err := lazyproto.NewDecoder(def.toDef(), opts...)
 	if err != nil {
 		return
@@ -352,7 +341,7 @@ func runC13(c *fw.Ctx) int {
 		c.LeanChecker("C13")
 	}
 	return c.Finish(
-		"valid: schema-free random value trees (varint / packed varint / fixed32 / packed fixed32 / fixed64 / packed fixed64 / bytes / nested messages to depth 3, 0-3 occurrences per tag, fields interleaved in random order, empty nested messages, the empty message) x random definitions (declared-present, declared-absent, undeclared, negative raw tags, nested defs, nesting declared on non-message tags) x 6 random (path, accessor) requests out of the 26 accessors x {safe, fast} x {Decoder object, deprecated Decode function}; answers compared with the Lean model and with an independent protowire walk; reuse: one Decoder per case (random mode x WithMaxBufferSize {none,0,1,2,64} x buffer filter {none, 1, half}) decoding 4-8 messages of one schema one after the other (some with a damaged last occurrence of a repeated nested field), each read through random requests, all 26 accessors on one tag and NestedResults of every nested tag, and closed before the next — answers compared with the reference walk of that message only; live: one Decoder per case (same option combinations) with 2-4 root results OPEN AT THE SAME TIME: 14-39 operations drawn from Decode of a further message, path requests of any length (26 accessors) on any open root or nested result, NestedResult / NestedResults handles that are kept and read again later, *FieldData objects taken out with FieldData(path…) and read again later, Close of any open root (not in opening order) or of a nested handle, further Decodes that recycle the closed objects while the other results are still being read; every answer compared with the reference walk of that result's own (sub-)message bytes and, with the observed object identities as the pools' choices, with the Lean pool machine; malformed: the same damaged by truncation / bit flips / junk / mixed wire types / continuation bits (no panic, model agreement); non-trivial = non-empty message with a non-empty definition",
+		"valid: schema-free random value trees (varint / packed varint / fixed32 / packed fixed32 / fixed64 / packed fixed64 / bytes / nested messages to depth 3, 0-3 occurrences per tag, fields interleaved in random order, empty nested messages, the empty message) x random definitions (declared-present, declared-absent, undeclared, negative raw tags, nested defs, nesting declared on non-message tags) x 6 random (path, accessor) requests out of the 26 accessors x {safe, fast} x {Decoder object, deprecated Decode function}; answers compared with the Lean model and with an independent protowire walk; reuse: one Decoder per case (random mode x WithMaxBufferSize {none,0,1,2,64} x buffer filter {none, 1, half, negative, zero, huge, capacity-dependent, cycling}, every combination) decoding 4-8 messages of one schema one after the other (some with a damaged last occurrence of a repeated nested field), each read through random requests, all 26 accessors on one tag and NestedResults of every nested tag, and closed before the next — answers compared with the reference walk of that message only; live: one Decoder per case (same option combinations) with 2-4 root results OPEN AT THE SAME TIME: 14-39 operations drawn from Decode of a further message, path requests of any length (26 accessors) on any open root or nested result, NestedResult / NestedResults handles that are kept and read again later, *FieldData objects taken out with FieldData(path…) and read again later, Close of any open root (not in opening order) or of a nested handle, further Decodes that recycle the closed objects while the other results are still being read; every answer compared with the reference walk of that result's own (sub-)message bytes and, with the observed object identities as the pools' choices, with the Lean pool machine; malformed: the same damaged by truncation / bit flips / junk / mixed wire types / continuation bits / a spliced-in record with field number 0 (key 0x00..0x07, also not minimally spelled; at the top level or inside a length-delimited payload) (no panic, model agreement); one definition in five declares exactly the consecutive field numbers 1..n; requests for tag 0; non-trivial = non-empty message with a non-empty definition",
 		append(trustedCommon, "protowire-based reference walk written in the harness (oracle for well-formed messages)"),
 		[]string{"error identity compared with errors.Is / errors.As classes: not-found, not-defined, nesting-not-defined, wire-type mismatch, overflow, other",
 			"for the empty message / empty nested message declared tags answer not-defined (which wraps not-found)"})
